@@ -22,6 +22,15 @@ def cps(s):
     return [] if s is None else [[ord(c) for c in s]]
 
 
+def item_repr(sig):
+    """small signatures verbatim (decimal strings); big ones as [marker, length, sha1] - equality of digests stands for equality of content"""
+    arr = np.asarray(sig)
+    if len(arr) <= 64:
+        return [str(int(v)) for v in arr]
+    import hashlib
+    return ['#big', str(len(arr)), hashlib.sha1(np.ascontiguousarray(arr.astype('u8')).tobytes()).hexdigest()]
+
+
 def content(coll, ids, meta):
     ks = coll.kmerspec
     ids = list(ids)
@@ -32,7 +41,7 @@ def content(coll, ids, meta):
                 meta=dict(id=cps(meta.id), name=cps(meta.name), version=cps(meta.version), id_attr=cps(meta.id_attr),
                           description=cps(meta.description),
                           extra=[] if meta.extra is None else [[ord(c) for c in json.dumps(meta.extra, sort_keys=True)]]),
-                items=[[str(int(v)) for v in np.asarray(s)] for s in coll])
+                items=[item_repr(s) for s in coll])
 
 
 METAS = {
@@ -63,6 +72,11 @@ def make_coll(spec, rng):
     sigs = []
     for i in range(n):
         m = 0 if spec.get('all_empty') or (spec.get('some_empty') and i % 2 == 0) else rng.randint(1, 6)
+        if spec.get('big') and i in spec['big'] and top > 10 ** 6:
+            m = spec['big'][i] if isinstance(spec['big'], dict) else 20000
+            nprng = np.random.default_rng(spec['seed'] + i)
+            sigs.append(np.unique(nprng.integers(0, min(top, 2 ** 62), size=m, dtype=np.uint64))[:m].astype(dt))
+            continue
         vals = sorted({rng.choice([0, top, top - rng.randint(0, min(top, 50)), rng.randint(0, top)]) for _ in range(m)})
         sigs.append(np.array(vals, dtype=dt))
     cont = spec['cont']
@@ -105,6 +119,10 @@ class RoundTrip(core.Family):
                             if not cont.startswith('annotated') and mk != 'default':
                                 continue
                             c += 1
+                            if k >= 16 and c % 9 == 0:
+                                # signatures with >= 2^14 values at non-first positions (write buffering thresholds), list-like containers too
+                                yield dict(k=k, plen=3, n=4, cont=cont, ids=idk, meta=mk, comp=comps[c % len(comps)], all_empty=False, some_empty=False,
+                                           dtype=None, seed=ctx.seed + c, big={1: 16384, 3: 70000} if c % 2 else {2: 16390})
                             yield dict(k=k, plen=1 + (c % 8), n=1 + (c % 6), cont=cont, ids=idk, meta=mk, comp=comps[c % len(comps)],
                                        all_empty=(c % 11 == 0), some_empty=(c % 3 == 0),
                                        dtype=('u8' if c % 7 == 0 else 'i8' if c % 13 == 0 and k <= 16 else None), seed=ctx.seed + c)
@@ -136,7 +154,7 @@ class RoundTrip(core.Family):
                 if n >= 4:
                     menu += [dict(t='ints', v=[0, 2, 1, 3]), dict(t='ints', v=[1, 1, 3]), dict(t='ints', v=[-n, -n + 2, -n + 1, -n + 3])]
                 items = r['orig']['items']
-                for ix in menu:
+                for ix in (menu if not inp.get('big') else []):
                     obj, watch = c20.to_index(dict(ix, **{'as': 'list'}) if ix['t'] == 'ints' else ix)
                     try:
                         res = proj_str(loaded[obj])
@@ -154,7 +172,7 @@ class RoundTrip(core.Family):
         return r
 
     def nontrivial(self, inp, rec):
-        return core.short_hash(inp) if inp['n'] >= 2 and not inp['all_empty'] else None
+        return core.short_hash(inp) if inp['n'] >= 2 and not inp.get('all_empty') else None
 
     def corrupt(self, rec):
         if rec['loaded']['items'] and rec['loaded']['items'][-1]:
